@@ -15,6 +15,7 @@ mod shared;
 mod common;
 mod c01;
 mod c02;
+mod c19;
 mod civ;
 mod tzcorpus;
 mod tzd;
@@ -61,6 +62,8 @@ fn dispatch(driver: &str, a: &Args) {
         "c02" => c02::run(&a),
         "c03" => tzd::run_c03(&a),
         "c07" => civ::run_c07(&a),
+        "c19replay" => c19::run_replay(&a),
+        "c19stress" => c19::run_stress(&a),
         "c06" | "c07z" | "c10z" | "c13" => zd::run_zoned(&a, driver),
         "c08" => civ::run_c08(&a),
         "c10" => civ::run_c10(&a),
